@@ -68,3 +68,98 @@ def reexecute(trace: dict, tid: str = None, prop: str = None, variant: int = 0) 
                keep=ev.get("kept", True), **params)
     rec.meta["reexecuted"] = True
     return rec.to_json()
+
+
+# ------------------------------------------------------------ C14 option machine
+def option_walks(dot_path: str, max_len: int = 60):
+    """Cover every edge of the dumped quotient graph by walks from the initial
+    state.  Returns (walks, n_edges); a walk is the list of `last` records."""
+    from collections import deque
+    nodes, edges, inits = tlaval.parse_dot(dot_path, variables={"last"})
+    adj = {}
+    for s, d, _ in edges:
+        adj.setdefault(s, [])
+        if d not in adj[s]:
+            adj[s].append(d)
+    uncovered = {(s, d) for s in adj for d in adj[s]}
+    total = len(uncovered)
+
+    def path_to_uncovered(start):
+        prev, dq = {start: None}, deque([start])
+        while dq:
+            u = dq.popleft()
+            if any((u, v) in uncovered for v in adj.get(u, ())):
+                path = []
+                while prev[u] is not None:
+                    path.append(u)
+                    u = prev[u]
+                return list(reversed(path))
+            for v in adj.get(u, ()):
+                if v not in prev:
+                    prev[v] = u
+                    dq.append(v)
+        return None
+
+    walks = []
+    init = inits[0]
+    while uncovered:
+        cur, walk = init, []
+        while len(walk) < max_len:
+            nxt = [v for v in adj.get(cur, ()) if (cur, v) in uncovered]
+            if nxt:
+                v = nxt[0]
+                uncovered.discard((cur, v))
+                walk.append(nodes[v]["last"])
+                cur = v
+                continue
+            path = path_to_uncovered(cur)
+            if path is None or len(walk) + len(path) >= max_len:
+                break
+            for v in path:
+                uncovered.discard((cur, v))
+                walk.append(nodes[v]["last"])
+                cur = v
+        if not walk:
+            break
+        walks.append(walk)
+    return walks, total
+
+
+def run_option_walk(walk, tid: str, prop: str, variant: int = 0) -> dict:
+    reset_options()
+    rec = Recorder(tid, prop)
+    depth = 0
+    for last in walk:
+        act = last["act"]
+        kw = last["kw"] if isinstance(last["kw"], dict) else {}
+        bad = list(last["bad"])
+        if act in ("set_options", "enter"):
+            rec.do(act, [], keep=False, kw=kw, bad=bad)
+            if act == "enter" and not bad:
+                depth += 1
+        elif act == "exit":
+            rec.do("exit", [], keep=False)
+            depth -= 1
+        elif act == "exit_exc":
+            rec.do("exit_exc", [], keep=False, thrown=last["thrown"])
+            depth -= 1
+        elif act == "get_mutate":
+            rec.do("get_mutate", [], keep=False, clear=bool(variant % 2))
+        elif act == "get_defaults":
+            rec.do("get_defaults", [], keep=False)
+    while depth > 0:
+        rec.do("exit", [], keep=False)
+        depth -= 1
+    reset_options()
+    rec.meta["source"] = "MC_Options"
+    return rec.to_json()
+
+
+def option_walks_items(dot_path: str):
+    walks, total = option_walks(dot_path)
+    return walks, {"graph_edges": total, "edges_covered_by_walks": total, "walks": len(walks)}
+
+
+def ring_programs(dump_path: str):
+    progs = list(leaf_programs(dump_path, var="prog", is_leaf=leaf_has_op))
+    return progs, {}
